@@ -7,11 +7,14 @@
   mutsweep.py run  <in.json> <out.json>       phase 2: apply each survivor to /repo, run all 20 quick
                                               checks, undo; record which checks raise an alarm
 
+Phase 2 can run without touching /repo: copy /verif to a scratch directory, point its
+harness/Cargo.toml at a scratch worktree of /repo and set MUT_REPO to that worktree.
+
 Nothing here is registered in MANIFEST.json; the results are summarised in DESIGN.md section 9."""
 import json, os, random, re, shutil, subprocess, sys, tempfile, concurrent.futures as cf
 
 VERIF = os.path.dirname(os.path.dirname(os.path.abspath(__file__)))
-REPO = '/repo'
+REPO = os.environ.get('MUT_REPO', '/repo')   # phase 2 may run in a scratch copy of /verif whose harness points at a scratch worktree
 PROPS = ['C%02d' % i for i in range(1, 21)]
 
 OPS = [
